@@ -705,6 +705,8 @@ static int arc_huffman_init(struct arc_data * ARC_RESTRICT arc,
   /* Precompute huffman tree and lookup table. */
   arc->huffman_lookup = (struct arc_lookup *)calloc(table_size, sizeof(struct arc_lookup));
   arc->huffman_tree = (struct arc_huffman_index *)malloc(arc->num_huffman * sizeof(struct arc_huffman_index));
+  if(!arc->huffman_lookup || !arc->huffman_tree)
+    return -1;
 
   for(i = 0; i < arc->num_huffman; i++)
   {
